@@ -428,6 +428,8 @@ def answer (ws : List String) : String :=
   | "pbdec" :: rest => answerWire "pbdec" rest
   | "qesc" :: rest => answerWire "qesc" rest
   | "qparse" :: rest => answerWire "qparse" rest
+  | "mpenc" :: rest => answerWire "mpenc" rest
+  | "mpdec" :: rest => answerWire "mpdec" rest
   | _ => "bad-case unknown-suite"
 
 end CV.C08
